@@ -26,7 +26,7 @@ package message
 //@   nopanic
 //@   ensures result != nil && fresh(result) [fresh]
 //@   ensures result.UUID == uuid && result.Payload == payload [fields]
-//@   ensures result.Metadata != nil && fresh(result.Metadata) && len(result.Metadata) == 0 [empty-metadata]
+//@   ensures result.Metadata != nil && fresh(result.Metadata) && len(result.Metadata) == 0 && (forall k string :: !has(result.Metadata, k)) [empty-metadata]
 //@   ensures result.ackSentType == noAckSent [unsettled]
 //@   ensures fresh(result.ack) && fresh(result.noAck) && result.ack != result.noAck && !closed(result.ack) && !closed(result.noAck) [own-open-channels]
 //@   ensures result.ctx == nil [no-context]
